@@ -96,13 +96,17 @@ def gen_relate(tier, rng):
             yield send_case(client_cfg(strict=strict), single(id=None), [rep], tag='relate')
             yield send_case(client_cfg(strict=strict), batch([_req_spec('a', None, None), _req_spec('b', [1], None)]), [rep], tag='relate')
     # batches: every response document a server could return
-    maxcalls = 4 if thorough else 3
+    maxcalls = 4
     for ncalls in range(1, maxcalls + 1):
-        for with_notif in (False, True):
-            ids = [1, 'x', 3, 4][:ncalls]
+        # notifications among the calls: none, one at each position, two
+        notif_layouts = [()] + [(p,) for p in range(ncalls + 1)] + [(0, ncalls + 1)]
+        if not thorough and ncalls >= 3:
+            notif_layouts = [(), (1,), (0, ncalls + 1)]
+        for layout in notif_layouts:
+            ids = [1, 'x', 3, 0][:ncalls]
             reqs = [_req_spec(f'm{i}', [i], id) for i, id in enumerate(ids)]
-            if with_notif:
-                reqs.insert(1 if ncalls > 1 else 0, _req_spec('n', None, None))
+            for k, pos in enumerate(layout):
+                reqs.insert(pos, _req_spec(f'n{k}', None, None))
             docs = []
             base = [ok(id, f'res{i}') for i, id in enumerate(ids)]
             perms = list(itertools.permutations(base))
@@ -114,12 +118,15 @@ def gen_relate(tier, rng):
                 docs.append(base + [base[i]])                               # duplication
                 docs.append(base[:i] + [err(ids[i])] + base[i + 1:])        # an error among successes
                 docs.append(list(reversed(base[:i] + [err(ids[i], -32601, 'Method not found')] + base[i + 1:])))
-                wrong = '1' if ids[i] == 1 else (1 if ids[i] == 'x' else str(ids[i]))
+                wrong = '1' if ids[i] == 1 else (1 if ids[i] == 'x' else str(ids[i]))      # '3' for 3, '0' for 0
                 docs.append(base[:i] + [ok(wrong, 'typed')] + base[i + 1:])  # id of the wrong JSON type
                 docs.append(base[:i] + [ok(None, 'nullid')] + base[i + 1:])  # null id
+                docs.append(base[:i] + [ok(99, 'subst')] + base[i + 1:])     # another id in its place
+                docs.append(base[:i] + base[i + 1:] + [ok(98, 'a'), ok(99, 'b')])   # one missing, two nobody asked for
             docs.append(base + [ok(99, 'extra')])                           # addition
             docs.append([ok(99, 'extra')] + list(reversed(base)))
             docs.append(base + [ok(None, 'null-extra')])
+            docs.append([ok(98, 'extra')] + base + [ok(99, 'extra')])
             docs.append([])
             docs.append({'jsonrpc': '2.0', 'id': None, 'error': {'code': -32600, 'message': 'Invalid Request', 'data': 'batch'}})
             docs.append({'jsonrpc': '2.0', 'id': None, 'error': {'code': 2001, 'message': 'typed'}})
@@ -221,6 +228,9 @@ TRACE_OUTCOMES = {
     'undecodable': lambda: text_reply(text='{'),
     'identity-mismatch': lambda: text_reply(ok(7)),
     'base-exception': lambda: exc_reply('Cancel'),
+    # what an attempt cancelled in mid-await (task.cancel(), wait_for timeout) ends in, and Ctrl-C
+    'cancelled': lambda: exc_reply('CancelledError'),
+    'keyboard-interrupt': lambda: exc_reply('KeyboardInterrupt'),
 }
 
 
@@ -485,6 +495,14 @@ def _oracle_half(prop, c, o, half):
                 fail('resent-unlisted', f'attempt {k} ended in an unlisted outcome but the request was re-sent')
         if not o.get('same_doc_each_attempt', True):
             fail('resend-changed-document', 'a re-sent request differs from the first one')
+        # the caller receives the *last* attempt's outcome: its exception re-raised, never one of an earlier attempt
+        a = c['attempts'][min(sends - 1, len(c['attempts']) - 1)]
+        raised = (final.get('raised') or {}).get('exc')
+        if a['k'] == 'exc':
+            if raised != IC.EXC[a['name']].__name__:
+                fail('last-exception-not-raised', 'the last attempt raised but the caller did not receive that exception', a['name'])
+        elif raised in {cls.__name__ for cls in IC.EXC.values()}:
+            fail('stale-exception', 'the last attempt returned a response but the caller received an earlier attempt\'s exception')
     if prop == 'C19' and c.get('tag') in ('trace', 'retry'):
         ntr = int(c['client']['tracers'])
         ev = o['trace']
